@@ -180,19 +180,19 @@ class MethodCtx:
             or any(isinstance(n, ast.AugAssign) and self._is_dict_read(self._as_load(n.target), None) for n in ast.walk(fn))
 
     def _is_dict_read(self, n, env):
-        """d[k] in load context where d is a dict-typed field of self or a dict-typed parameter/local."""
-        if not (isinstance(n, ast.Subscript) and isinstance(n.ctx, ast.Load)):
+        """d[k] / l[i] in load context where d (l) is a dict- (list-) typed field of self or parameter/local:
+        a read that can raise KeyError / IndexError."""
+        if not (isinstance(n, ast.Subscript) and isinstance(n.ctx, ast.Load)) or isinstance(n.slice, ast.Slice):
             return False
         v = n.value
         if env is not None and isinstance(n.slice, ast.Name) and (ast.unparse(v), n.slice.id) in env.known_in:
             return False
+        t = None
         if isinstance(v, ast.Attribute) and isinstance(v.value, ast.Name) and v.value.id == "self":
-            return self.cls.fields.get(v.attr) == "dict"
-        if isinstance(v, ast.Name):
-            if env is not None:
-                return env.locals.get(v.id) == "dict"
-            return dict(self.params).get(v.id) == "dict"
-        return False
+            t = self.cls.fields.get(v.attr)
+        elif isinstance(v, ast.Name):
+            t = env.locals.get(v.id) if env is not None else dict(self.params).get(v.id)
+        return t == "dict" or (isinstance(t, tuple) and t[0] == "list")
 
     def hoist_dict_reads(self, nodes, env):
         """Replace every d[k] read inside `nodes` by a fresh local; returns (new nodes, env', [(var, d_txt, k_txt)]).
@@ -206,21 +206,21 @@ class MethodCtx:
             def visit_Subscript(self, n):
                 n = self.generic_visit(n)
                 if ctx._is_dict_read(n, env2):
-                    d, _ = ctx.expr(n.value, env2)
+                    d, dt = ctx.expr(n.value, env2)
                     k, kt = ctx.expr(n.slice, env2)
                     if kt not in ZLIKE:
-                        _u(n, "dict key must be Z")
+                        _u(n, "dict key / list index must be Z")
                     v = ctx.tr.gensym("dv")
-                    env2.locals[v] = "Z"
-                    binds.append((v, d, k))
+                    env2.locals[v] = "Z" if dt == "dict" else dt[1]
+                    binds.append((v, d, k, "dfind" if dt == "dict" else "py_index"))
                     return ast.copy_location(ast.Name(id=v, ctx=ast.Load()), n)
                 return n
         out = [R().visit(copy.deepcopy(x)) for x in nodes]
         return out, env2, binds
 
     def wrap_binds(self, binds, txt):
-        for v, d, k in reversed(binds):
-            txt = f"match dfind {d} {k} with\n| None => None\n| Some {v} =>\n{textwrap.indent(txt, '    ')}\nend"
+        for v, d, k, fn in reversed(binds):
+            txt = f"match {fn} {d} {k} with\n| None => None\n| Some {v} =>\n{textwrap.indent(txt, '    ')}\nend"
         return txt
 
     def _calls_raising(self, fn):
@@ -684,6 +684,18 @@ class MethodCtx:
             return f"(if {c} then {a} else {b})", at
         if isinstance(e, ast.Call):
             return self.call(e, env, want)
+        if isinstance(e, ast.Subscript) and isinstance(e.slice, ast.Slice):
+            x, t = self.expr(e.value, env)
+            if not (isinstance(t, tuple) and t[0] == "list") or e.slice.step is not None:
+                _u(e, "slice of a non-list / with a step")
+            def bound(b):
+                if b is None:
+                    return "None"
+                bx, bt = self.expr(b, env)
+                if bt not in ZLIKE:
+                    _u(e, "slice bound must be Z")
+                return f"(Some {bx})"
+            return f"(py_slice {x} {bound(e.slice.lower)} {bound(e.slice.upper)})", t
         if isinstance(e, ast.Subscript):
             x, t = self.expr(e.value, env)
             if t == "dict":
@@ -696,6 +708,16 @@ class MethodCtx:
                     _u(e, "l[0] on a non-Z list")
                 return f"(py_hd {x})", t[1]
             _u(e, "subscript")
+        if isinstance(e, ast.List):
+            if not e.elts:
+                if isinstance(want, tuple) and want[0] == "list":
+                    return "[]", want
+                _u(e, "empty list display without a known element type")
+            parts = [self.expr(x, env) for x in e.elts]
+            ts = {str(t) for _, t in parts}
+            if len(ts) != 1:
+                _u(e, "list display with mixed element types")
+            return "[" + "; ".join(x for x, _ in parts) + "]", ("list", parts[0][1])
         if isinstance(e, ast.Tuple):
             parts = [self.expr(x, env) for x in e.elts]
             return "(" + ", ".join(x for x, _ in parts) + ")", ("tuple", [t for _, t in parts])
@@ -896,6 +918,10 @@ class MethodCtx:
                 d, dt = self.expr(e.args[0], env)
                 if dt == "dict":
                     return d, "dict"
+            if f.id == "list" and len(e.args) == 1:
+                d, dt = self.expr(e.args[0], env)
+                if isinstance(dt, tuple) and dt[0] == "list":
+                    return d, dt
             c = self.tr.classes.get(f.id)
             if c is not None:      # struct constructor
                 names = list(c.fields)
